@@ -114,7 +114,7 @@ Qed.
 Definition c30_t0 : fmap := [(b "a", (KReg, b "A0"))].
 Definition c30_t1 : fmap := [(b "a", (KReg, b "A1")); (b "n", (KReg, b "N"))].
 Definition c30_base (ix w : fmap) : state :=
-  mkState [c30_t0; c30_t1] [(master, 0%Z); (o_other, 1%Z)] (HSym master) ix w.
+  mkState [c30_t0; c30_t1] [(master, 0%Z); (o_other, 1%Z)] (HSym master) ix w [].
 Definition co_plain (br : bytes) := mkCopts br (-1) false false false.
 
 Definition c30_staged : state :=
@@ -143,7 +143,7 @@ Definition c30_k0 : fmap := [(b "a", (KReg, b "A0")); (b "u", (KReg, b "U"))].
 Definition c30_k1 : fmap := [(b "a", (KReg, b "A1")); (b "u", (KReg, b "U"))].
 Definition c30_keep : state :=
   mkState [c30_k0; c30_k1] [(master, 0%Z)] (HSym master) c30_k0
-          [(b "a", (KReg, b "A0")); (b "u", (KReg, b "local"))].
+          [(b "a", (KReg, b "A0")); (b "u", (KReg, b "local"))] [].
 
 Lemma keep_overwrites_untouched :
   exists s', reset 1 Keep None c30_keep = (None, s') /\
